@@ -187,6 +187,56 @@ def pair_shard(i):
 
 
 # ---------------------------------------------------------------------------
+# directive names: only '#pragma' and '#line' / '# <number>' are directives; any
+# other word after '#' (including words that merely start with 'pragma' or
+# 'line') leaves '#' an ordinary PPHASH token followed by ordinary tokens
+# ---------------------------------------------------------------------------
+DIR_WORDS = ["pragma", "pragmas", "pragma_once", "pragma7", "pragmatic", "Pragma", "PRAGMA", "prag", "line", "lines", "line_", "line7", "linex", "Line",
+             "define", "include", "if", "endif", "error", "x", "_", "lin", "p"]  # fmt: skip
+DIR_RESTS = ["", " ", " once", " 3", ' 3 "f.h"', "(", " a b", "\t1"]
+
+
+def directive_shard(_):
+    st = Stats()
+    for lead in ("", " ", "\t"):
+        for mid in ("", " ", "\t "):
+            for w in DIR_WORDS:
+                for rest in DIR_RESTS:
+                    line = lead + "#" + mid + w + rest
+                    text = "a\n" + line + "\nb"
+                    st.evaluations += 1
+                    got, errs, ncalls, lx, finished = lex_all(text)
+                    case = ("directive", text)
+                    is_pragma = w == "pragma" and (rest == "" or not (rest[0].isalnum() or rest[0] in "_$"))
+                    is_line = (w == "line" and (rest == "" or not (rest[0].isalnum() or rest[0] in "_$")))
+                    vals = [g[1] for g in got]
+                    types = [g[0] for g in got]
+                    if is_pragma:
+                        body = rest.strip(" \t")
+                        exp_types = ["ID", "PPPRAGMA"] + (["PPPRAGMASTR"] if body else []) + ["ID"]
+                        if types != exp_types or (body and vals[2] != rest.lstrip(" \t")):
+                            st.failures.append(dict(subcheck="directive", case=case, text=text, detail="'#pragma' line lexed as %r" % (got,), sig="pragma-line"))
+                        else:
+                            st.nontrivial += 1
+                        continue
+                    if is_line:
+                        # a #line directive (well-formed or reported through the error callback): never tokens
+                        if types != ["ID", "ID"]:
+                            st.failures.append(dict(subcheck="directive", case=case, text=text, detail="'#line' line produced tokens %r" % (got,), sig="line-directive-tokens"))
+                        else:
+                            st.nontrivial += 1
+                        continue
+                    # not a directive: '#' must come back as PPHASH followed by the word's tokens
+                    ref = reflex.pp_tokens(w + rest)
+                    exp_vals = ["a", "#"] + (ref or []) + ["b"]
+                    if "PPHASH" not in types or "PPPRAGMA" in types or vals != exp_vals:
+                        st.failures.append(dict(subcheck="directive", case=case, text=text, detail="'#%s' is neither #line nor #pragma: expected '#' (PPHASH) and the tokens %r, got %r" % (w, ref, got), sig="not-a-directive"))
+                    else:
+                        st.nontrivial += 1
+    return st
+
+
+# ---------------------------------------------------------------------------
 # progress part
 # ---------------------------------------------------------------------------
 ALPHA = ["a", "1", "0", "x", ".", "'", '"', "\\", "#", "/", "*", "+", "-", "<", "=", " ", "\n", "@", "L", "{"]
@@ -306,6 +356,7 @@ def noise_shard(arg):
 
 def run(ctx):
     ctx.map(pair_shard, list(range(len(VOCAB))), chunksize=4)
+    ctx.map(directive_shard, [0])
     nmax = ctx.pick(4, 5)
     ctx.map(progress_shard, [(n, f) for n in range(1, nmax + 1) for f in ALPHA], chunksize=1)
     ctx.map(seq_shard, [(s, ctx.pick(1500, 30000)) for s in ctx.shard_seeds(16)])
@@ -315,6 +366,12 @@ def run(ctx):
 
 
 def replay(subcheck, case):
+    if case[0] == "directive":
+        r = directive_shard(0)
+        bad = [f for f in r.failures if f["case"] == tuple(case) or list(f["case"]) == list(case)]
+        if bad:
+            raise CheckFailure(**bad[0])
+        return
     if case[0] == "seq":
         check_sequence(case[1], [tuple(x) for x in case[2]], case)
     else:
